@@ -300,6 +300,11 @@ func (x *Exec) intrinsic(fn *ssa.Function, args []Value) (Value, bool) {
 		if r, ok := x.harnessAPI(fn.Name(), args); ok {
 			return r, true
 		}
+		if strings.HasPrefix(fn.Name(), "vFS") {
+			if r, ok := x.fsAPI(fn.Name(), args); ok {
+				return r, true
+			}
+		}
 	}
 	return x.intrinsicNamed(fn, path, fn.String(), args)
 }
